@@ -130,7 +130,7 @@ def canon(x, _depth=0):
         return ("delaunay", canon_ndarray(x.points), canon_ndarray(x.simplices))
     if tname in _RECORD_ATTRS:
         return ("rec", tname, tuple((a, canon(getattr(x, a, None), _depth + 1)) for a in _RECORD_ATTRS[tname]))
-    if tname in ("Imaging",) and hasattr(x, "noise_map"):
+    if tname in ("Imaging", "Interferometer") and hasattr(x, "noise_map"):
         return ("ds", tname, canon(getattr(x, "data", None), _depth + 1), canon(getattr(x, "noise_map", None), _depth + 1), canon(getattr(x, "psf", None), _depth + 1))
     if tname == "Header":
         return ("obj", tname)
